@@ -33,7 +33,7 @@ theorem alpha_lt {c : UInt8} (h : isAlpha c = true) : c.toNat < 128 := by
 
 /-- one edit at the occurrence turns `d₁ ++ x ++ d₂` into `d₁ ++ r ++ d₂` -/
 theorem applyEdits_occurrence {d₁ x d₂ r : Bytes} (hx : ∃ c cs, x = c :: cs ∧ isAlpha c = true)
-    (hr : ∀ b, r.head? = some b → b.toNat < 128) (h2 : NeutralDelim d₂) :
+    (hr : ∀ b, r.head? = some b → b.toNat < 128) (h2 : CharStart d₂) :
     Edits.applyEdits (d₁ ++ x ++ d₂)
       [{ before := x, after := r, start := d₁.length, stop := d₁.length + x.length }] = .ok (d₁ ++ r ++ d₂) := by
   obtain ⟨c, cs, rfl, hc⟩ := hx
@@ -61,7 +61,7 @@ theorem applyEdits_occurrence {d₁ x d₂ r : Bytes} (hx : ∃ c cs, x = c :: c
         | nil => simp
         | cons z d =>
           simp only [List.head?_cons]
-          rw [isCont_of_lt (neutral_facts (h2 z (List.mem_cons_self ..))).2.2.2]; rfl
+          rw [h2 z rfl]; rfl
     · intro b hb; exact isCont_of_lt (hr b hb)
 
 -- the CLI's variant table (case_model.rs, converted pair by pair) -------------------------------------------------------------
